@@ -93,13 +93,34 @@ def run(F, R, ctx):
                nontrivial=False)
 
 
-def union_rule(F, R):
-    R.rule("C11.u", "hash-union is left-biased in every ownership arm (sibling agreement): each call of the persistent map's "
-                    "union in hm_union takes (a value derived from) the left operand as receiver and the right operand as "
-                    "argument, so the result on duplicate keys does not depend on which operand happened to be uniquely owned")
+def union_rule(F, R, rid="C11.u"):
+    from . import pairmatch
+    R.rule(rid, "hash-union is left-biased in every ownership arm (sibling agreement): each call of the persistent map's "
+                "union in hm_union takes (a value derived from) the left operand as receiver and the right operand as "
+                "argument, and every arm of the match on which operands are uniquely owned (Some/None of the two get_mut "
+                "results) computes its result through such a call — so the result on duplicate keys does not depend on "
+                "which operand happened to be uniquely owned (an arm that merges by hand, entry by entry, is not checked "
+                "against its siblings and is reported)")
     fn = F.one(r"^steel::primitives::hashmaps::hm_union$")
     us = [(i, b) for i, b in fn.calls() if re.search(r"::union$", b["callee"])]
-    R.floor("C11.u", "union calls in hm_union", len(us), 3)
+    R.floor(rid, "union calls in hm_union", len(us), 3)
+    pms = pairmatch.pair_matches(fn, "Option")
+    if not pms:
+        raise CheckError("anchor lost: hm_union does not match on the pair of get_mut results")
+    pm = max(pms, key=lambda p_: len(p_.side_of))
+    entries = {}
+    for l in ("Some", "None"):
+        for r in ("Some", "None"):
+            entries.setdefault(pm.arm(l, r), []).append((l, r))
+    ublocks = {i for i, _ in us}
+    for e, pairs in sorted(entries.items()):
+        region = fn.reachable_from([e], avoid=set(entries) - {e})
+        R.inst(rid, "hm_union / ownership arm %s merges through union" % "/".join("(%s, %s)" % p_ for p_ in pairs),
+               bool(region & ublocks),
+               "the arm of hm_union taken when the operands' unique ownership is %s builds its result without calling the "
+               "persistent map's union: whatever it does by hand decides duplicate keys on its own (folding the left map's "
+               "missing entries into the right one keeps the RIGHT value), so (hash-union a b) depends on how a and b are "
+               "owned" % ", ".join("(left %s, right %s)" % p_ for p_ in pairs), fn.loc(fn.blocks[e].get("line")), sample=True)
     tl = lib.tainted_locals(fn, ["_1"])
     tr = lib.tainted_locals(fn, ["_2"])
     for n_, (i, b) in enumerate(us):
@@ -110,7 +131,7 @@ def union_rule(F, R):
         # a local can be tainted by both when it was assigned in both arms; require the discriminating direction
         ok = bool(a0 & tl) and bool(a1 & tr) and not (bool(a0 & tr) and not bool(a0 & tl))
         only_right_recv = bool(a0 & tr) and not bool(a0 & tl)
-        R.inst("C11.u", "hm_union / union call #%d is left.union(right)" % n_, ok and not only_right_recv,
+        R.inst(rid, "hm_union / union call #%d is left.union(right)" % n_, ok and not only_right_recv,
                "hm_union calls union with the right operand as receiver (line %s): the persistent map keeps the receiver's "
                "value on duplicate keys, so this ownership arm is right-biased while its siblings are left-biased — "
                "(hash-union a b) returns a different value for a shared key depending on how a and b are owned" % b["line"],
